@@ -5,13 +5,15 @@
    pre-NAT destination that equals or differs from the post-NAT one.  Prints one BEH line per case. *)
 EXTENDS TraceLib, PolicyProbes, BPFSem, SequencesExt
 
-CONSTANT MaxBase          \* cap on the number of base probe packets per case (deterministic thinning)
+CONSTANTS CapHit,         \* per rule: cap on probe packets that the rule matches
+          CapMiss         \* per rule: cap on probe packets that it does not match
 
 TInit == l = 1
 
-Thin(S) == IF Cardinality(S) <= MaxBase THEN S
-           ELSE LET s == SetToSeq(S)  step == (Len(s) + MaxBase - 1) \div MaxBase
-                IN { s[i] : i \in { j \in 1..Len(s) : j % step = (Cur.case % step) } }
+\* deterministic thinning of a set to about n elements (evenly spaced in TLC's enumeration order)
+ThinTo(S, n) == IF Cardinality(S) <= n THEN S
+                ELSE LET s == SetToSeq(S)  step == (Len(s) + n - 1) \div n
+                     IN { s[i] : i \in { j \in 1..Len(s) : j % step = (Cur.case % step) } }
 
 \* host flags: forwarded, to host, from host.  When some tier is matched against the pre-NAT destination
 \* (pre-DNAT tiers, or untracked policy in an XDP program) the packet is also tried with DNAT in effect, in
@@ -24,9 +26,27 @@ Variants(p, others, usesPre) ==
            \cup { [p EXCEPT !.dst = q.dst, !.dport = q.dport] @@ [preDst |-> p.dst, preDport |-> p.dport, toHost |-> f[1], fromHost |-> f[2]]
                    : q \in others, f \in {<<FALSE, FALSE>>, <<TRUE, FALSE>>} })
 
+\* Very long port / CIDR lists (the oversized cases that force the builder to split a program in the middle
+\* of a list) are SAMPLED for the purpose of choosing probes: first and last entries plus ~24 evenly spaced
+\* ones, so that entries on both sides of any split point are probed.  The verdict is still judged against
+\* the full rule.
+SampleIdx(n) == IF n <= 40 THEN 1..n
+                ELSE {1, 2, n - 1, n} \cup { (k * n) \div 25 : k \in 1..24 } \cup { ((k * n) \div 25) + 1 : k \in 1..24 }
+SampleSeq(q) == IF Len(q) <= 40 THEN q ELSE LET idx == SetToSeq(SampleIdx(Len(q))) IN [i \in 1..Len(idx) |-> q[idx[i]]]
+ThinRule(r) == [r EXCEPT !.srcPorts = SampleSeq(@), !.dstPorts = SampleSeq(@), !.notSrcPorts = SampleSeq(@), !.notDstPorts = SampleSeq(@),
+                         !.srcNets = SampleSeq(@), !.dstNets = SampleSeq(@), !.notSrcNets = SampleSeq(@), !.notDstNets = SampleSeq(@)]
+
+IsLong(r) == Len(r.srcPorts) > 40 \/ Len(r.dstPorts) > 40 \/ Len(r.notSrcPorts) > 40 \/ Len(r.notDstPorts) > 40 \/ Len(r.srcNets) > 40 \/ Len(r.dstNets) > 40 \/ Len(r.notSrcNets) > 40 \/ Len(r.notDstNets) > 40
+\* per rule: probes chosen from the (sampled) rule, split by whether the FULL rule matches them; matching ones are
+\* the scarce, interesting kind (they decide "allow expected"), so they get their own quota - a larger one for the
+\* oversized rules, whose list entries on both sides of a program split must be exercised
+RuleCaseProbes(r, c) ==
+    LET P == RuleProbes(ThinRule(r), c.cfg.ipv, c.sets)
+        hit == { p \in P : RuleMatches(r, p, c.sets) }
+    IN ThinTo(hit, IF IsLong(r) THEN 6 * CapHit ELSE CapHit) \cup ThinTo(P \ hit, CapMiss)
+
 CaseProbes(c) ==
-    LET base == Thin(RulesProbes(AllRules(c.cfg), c.cfg.ipv, c.sets))
-        \* a few alternative pre-NAT destinations taken from the probes themselves
+    LET base == UNION { RuleCaseProbes(r, c) : r \in AllRules(c.cfg) }
         \* alternative destinations: one probe per distinct destination port (at most 4), so that DNAT changes the port
         dports == { q.dport : q \in base }
         dsel == IF Cardinality(dports) <= 4 THEN dports
